@@ -68,7 +68,8 @@ def _run_task(task):
     res = lens.run(sc)
     res["scenario"] = sc
     res["digest"] = world.digest(
-        [sc, res["viol"], res["herr"], res["sig"], res["events"], res["steps"]]
+        [sc, [v[0] for v in res["viol"]], [h[0] for h in res["herr"]], res["sig"], res["events"],
+         res["steps"], res.get("oplog")]
     )
     return res
 
@@ -233,9 +234,15 @@ def main(argv=None):
     ap.add_argument("--jobs", type=int, default=min(16, os.cpu_count() or 4))
     ap.add_argument("--no-minimise", action="store_true")
     ap.add_argument("--keep-going", action="store_true")
+    ap.add_argument("--digests", type=int, help="print the event-log digests of the first N seeded runs and exit")
     ap.add_argument("--only-run", type=int, help="run just this run index (then minimise / write replay as usual)")
+    ap.add_argument("--fast", action="store_true", help="selftest: fewer runs")
     ap.add_argument("--no-known", action="store_true", help="ignore known_findings.json (no quarantine, no pinned replays)")
     args = ap.parse_args(argv)
+    if args.prop == "selftest":
+        from . import selftest
+
+        return selftest.main(args)
     world.bootstrap()
     global _LENS, _TIER, _QUAR
     prop = args.prop
@@ -269,6 +276,12 @@ def main(argv=None):
             print(json.dumps(hit[0], indent=1, default=repr)[:3000])
             print(f"VIOLATION property={prop} replay={args.replay}")
             return 1
+        return 0
+
+    if args.digests:
+        tasks = [{"seed": world.mix(seed, prop, args.tier, i)} for i in range(args.digests)]
+        rs = world.run_many(_run_task, tasks, jobs=args.jobs, timeout=60)
+        print("DIGESTS " + json.dumps([r["res"]["digest"] if r.get("ok") else "ERR" for r in rs]))
         return 0
 
     from . import evidence
